@@ -1,7 +1,8 @@
 // C03 driver (real threads, real library): bodies throw; the waiting call must rethrow exactly one exception that was actually thrown,
 // only after every body of the group has stopped; nothing starts afterwards; functor copies are destroyed exactly once; the group is reusable.
 //   args: P seed n scenario nthrow     scenario: 0 task_group | 1 parallel_for | 2 parallel_reduce | 3 parallel_for_each | 4 parallel_invoke |
-//                                                5 parallel_pipeline | 6 flow graph | 7 task_arena::execute | 8 nested parallel_for in task_group | 9 400 warm rounds, simultaneous throwers
+//                                                5 parallel_pipeline | 6 flow graph | 7 task_arena::execute | 8 nested parallel_for in task_group | 9 400 warm rounds, simultaneous throwers |
+//                                                10 the k-th Range split / Body copy (split) constructor throws: parallel_for x 4 partitioners, parallel_reduce
 //   output: CAUGHT k (number of exceptions delivered to the caller, must be 1 if any thrower ran else 0) BADVALUE RUNNINGATRETURN STARTEDAFTER LEAK NOTREUSABLE THROWERS k
 #include "common.h"
 #include <random>
@@ -39,6 +40,32 @@ static void body(int i) {
     g_running--;
 }
 
+// scenario 10: the exception comes out of the RANGE's splitting constructor or of the BODY's copy / splitting constructor, i.e. from library code that
+// is in the middle of dividing the work (parallel_for with four partitioners, parallel_reduce): the k-th such constructor call throws.
+static std::atomic<long> g_split_calls{0}, g_copy_calls{0}; static long g_split_at = -1, g_copy_at = -1; static std::atomic<long> g_fault_fired{0};
+struct FRange {
+    int b, e;
+    FRange(int b_, int e_) : b(b_), e(e_) {}
+    FRange(const FRange&) = default;
+    FRange(FRange& r, tbb::split) : b(0), e(0) {
+        if (++g_split_calls == g_split_at) { g_fault_fired++; throw Ex(-1); }
+        int m = r.b + (r.e - r.b) / 2; b = m; e = r.e; r.e = m;
+    }
+    bool empty() const { return b >= e; } bool is_divisible() const { return e - b > 1; }
+};
+struct FBody {
+    FBody() {}
+    FBody(const FBody&) { if (++g_copy_calls == g_copy_at) { g_fault_fired++; throw Ex(-2); } }
+    void operator()(const FRange& r) const { for (int i = r.b; i < r.e; ++i) body(1000000 + i); }
+};
+struct FRBody {
+    long sum = 0;
+    FRBody() {}
+    FRBody(FRBody&, tbb::split) { if (++g_copy_calls == g_copy_at) { g_fault_fired++; throw Ex(-3); } }
+    void operator()(const FRange& r) { for (int i = r.b; i < r.e; ++i) { body(1000000 + i); sum += i; } }
+    void join(FRBody& o) { sum += o.sum; }
+};
+
 int main(int argc, char** argv) {
     int P = atoi(argv[1]); unsigned seed = (unsigned)atoi(argv[2]); int n = atoi(argv[3]); int sc = atoi(argv[4]); int nthrow = atoi(argv[5]);
     Watchdog wd(60.0); Out o; wd.arm(&o);
@@ -47,7 +74,7 @@ int main(int argc, char** argv) {
     g_rdv = std::min(nthrow, std::max(1, P));
     long caught = 0, badvalue = 0, running_at_return = 0, started_after = 0, notreusable = 0;
     auto guard = [&](auto&& f) {
-        try { f(); } catch (Ex& e) { caught++; std::lock_guard<std::mutex> l(g_m); if (!g_thrown.count(e.id)) badvalue++; } catch (...) { caught++; badvalue++; }
+        try { f(); } catch (Ex& e) { caught++; std::lock_guard<std::mutex> l(g_m); if (e.id >= 0 && !g_thrown.count(e.id)) badvalue++; } catch (...) { caught++; badvalue++; }
         running_at_return = g_running.load();
         long s0 = g_started.load(); std::this_thread::sleep_for(std::chrono::milliseconds(3)); if (g_started.load() != s0) started_after = g_started.load() - s0;
     };
@@ -80,6 +107,25 @@ int main(int argc, char** argv) {
             tbb::task_arena a(std::max(1, P / 2));
             guard([&] { a.execute([&] { tbb::parallel_for(0, n, [pr](int i) { body(i); }); }); });
             int ok = 0; a.execute([&] { ok = 1; }); if (!ok) notreusable++;
+        } else if (sc == 10) {
+            long wrong = 0;
+            for (int alg = 0; alg < 5; ++alg) for (int what = 0; what < 2; ++what) for (int k = 1; k <= 6; ++k) {
+                g_split_calls = 0; g_copy_calls = 0; g_split_at = what == 0 ? k : -1; g_copy_at = what == 1 ? k : -1; g_fault_fired = 0;
+                long c0 = caught; tbb::affinity_partitioner ap;
+                guard([&] {
+                    FRange rg(0, n);
+                    if (alg == 0) tbb::parallel_for(rg, FBody(), tbb::simple_partitioner());
+                    else if (alg == 1) tbb::parallel_for(rg, FBody(), tbb::auto_partitioner());
+                    else if (alg == 2) tbb::parallel_for(rg, FBody(), tbb::static_partitioner());
+                    else if (alg == 3) tbb::parallel_for(rg, FBody(), ap);
+                    else { FRBody rb; tbb::parallel_reduce(rg, rb); }
+                });
+                // the injected fault (if it fired) must reach the caller exactly once; if it did not fire nothing may be thrown
+                if ((caught - c0) != (g_fault_fired.load() > 0 ? 1 : 0)) wrong++;
+                if (running_at_return) wrong++;
+            }
+            g_split_at = g_copy_at = -1;
+            badvalue = wrong; caught = 0; g_threw = 0;
         } else if (sc == 9) {
             // many rounds in one process (workers are warm): nthrow bodies of one group throw at the same moment, alternating
             // task_group and parallel_for with an explicit context; after each round every exception object must be gone
